@@ -58,6 +58,7 @@ CHECKS = {
 }
 
 CHECKS['C03'] = {
+    'grid': {'sets': ['c03'], 'bound': 'every pair (a, b) over {NULL, 0, 1, -1, 2, i64::MAX, i64::MIN} x s in {x, NULL} (97 rows) x 38 projections / conditions against a reference evaluator written from the statement (one row each, and as WHERE over all rows); names, *, input, a column called input; timestamp comparisons by instant with a text literal on either side; 6 functions with column arguments over 4 rows (about 3700 cases)'},
     'verus_units': ['eval', 'select', 'mapping', 'valuetype', 'converter'],
     'clause_prefixes': ['c03', 'value.', 'engine.', 'row.', 'select.'],
     'technique': 'contract-based deductive verification (Verus): arms of ExpressionExecutionEngine::evaluate extracted from /repo and proved against a recursive specification sem_eval written from the property text; structural induction through the contract of evaluate',
@@ -153,6 +154,7 @@ CHECKS['C01'] = {
     'unproved': ['timestamp month-name branch', 'regex crate (matching)', 'vx_pattern_refs: the closure that borrows (name, text, mode) triples for TableDefinition::new is a stand-in (tuple-pattern closure returning borrows)', 'the expression parser behind DEFAULT literals (stand-ins)'],
 }
 CHECKS['C02'] = {
+    'grid': {'sets': ['c02'], 'bound': '20 JSON-path column definitions (every scalar type, nested paths, array indexes, CONVERT, DEFAULT, an array column; a regex column beside them) x 30 lines (nesting, whitespace around the document, wrong-typed leaves, numbers beyond i64 / f64, duplicate keys, arrays, empty containers, non-JSON, truncated JSON); NOT NULL / DEFAULT interplay on 6 lines (about 600 cases), oracle = serde_json parse of the line + the conversion rules of the statement'},
     'verus_units': ['extract', 'parser', 'converter'],
     'clause_prefixes': ['c02'],
     'technique': 'contract-based deductive verification (Verus): JsonAccess::get_value (recursive, with decreases), the Json arm of ColumnParsing::extract and the scalar arms of ValueType::convert_from_json extracted from /repo against json_walk / sem_from_json',
@@ -215,6 +217,7 @@ CHECKS['C19'] = {
 }
 
 CHECKS['C04'] = {
+    'grid': {'sets': ['c04'], 'bound': 'every sequence of up to 3 rows, a ninth of those of 4 and about 1% of those of 5 over a 7-row pool (NULL keys, NULL arguments, all-NULL groups, TEXT arguments) x 9 statement shapes against aggregates computed per group from the written rows (about 4000 cases); every statement has COUNT(*), so the two known findings (no cell at all) are outside this grid'},
     'verus_units': ['aggregate', 'aggdispatch', 'aggresult', 'converter'],
     'clause_prefixes': ['c04', 'value.modify', 'value.map-numeric', 'value.default'],
     'technique': 'contract-based deductive verification (Verus): GroupAggregator::default / update (all arms) / is_null, ensure_sum_fits and Value::modify_same_type_numeric_nullable / map_numeric extracted from /repo against step functions written from the property text',
